@@ -138,8 +138,7 @@ Definition next_token (input : bytes) : token * bytes :=
   match l with
   | [] => (tok TEOF [], l)
   | c :: r =>
-      if c =? 0 then (tok TEOF [], l)
-      else if c =? 40 then (tok TLParen [c], r)
+      if c =? 40 then (tok TLParen [c], r)
       else if c =? 41 then (tok TRParen [c], r)
       else if c =? 44 then (tok TComma [c], r)
       else if c =? 61 then (if hd0 r =? 61 then (tok TEq [61; 61], tl r) else (tok TOperator [c], r))
